@@ -85,7 +85,7 @@ def token_bounds(policy: str, data: bytes) -> List[int]:
 
 def parse_record(rec: str) -> Optional[Dict[str, Any]]:
     f = rec.split(':')
-    if len(f) != 11 or f[0] not in ('B', 'Y', 'T', 'R'):
+    if len(f) != 11 or f[0] not in ('B', 'Y', 'T', 'R', 'U'):
         return None
     try:
         r = {'mode': f[0], 'i': int(f[1]), 'off': int(f[2]), 'byte': int(f[3]), 'line': int(f[4]), 'col': int(f[5]),
@@ -114,6 +114,10 @@ def judge(case: Case, r: Dict[str, Any]) -> Tuple[List[str], Optional[str], Dict
     if r['mode'] in ('B', 'Y'):
         if k != r['i']:
             fails.append(f"cursor offset {k} after consuming {r['i']} bytes")
+    elif r['mode'] == 'U':
+        ends = [0] + [j + 1 for j, b in enumerate(data) if b == 97]
+        if r['i'] >= len(ends) or ends[r['i']] != k:
+            fails.append(f"cursor offset {k} behind the {r['i']}-th 'a'")
     else:
         tb = token_bounds(policy, data)
         if r['i'] >= len(tb) or tb[r['i']] != k:
